@@ -12,6 +12,7 @@ import NmVerif.Basic
 import NmVerif.Containers.Kinds
 import NmVerif.Containers.KindRefs
 import NmVerif.Lemmas.Kinds
+import NmVerif.Lemmas.KindRefusals
 namespace NmVerif.Props.C09
 open NmVerif NmVerif.Kinds NmVerif.KindRefs
 
@@ -165,7 +166,8 @@ theorem broadcast_result_fits (capa capb : Nat) (a b r : List Nat) (h : broadcas
 
 example : broadcastShape [2, 1, 4] [3, 1] = some [2, 3, 4] := by decide
 
-/-- known finding C09.broadcast-clipped-one-with-slack: the C++ takes the result bounds from the clipped operand
+/-- former known finding C09.broadcast-clipped-one-with-slack (repaired in /repo by 90a319c, kept as a regression instance of
+    the matrix): the C++ took the result bounds from the clipped operand
     alone (`"2:[2]","1:[2]","4:[6]"` against the run-time shape (3,1)); the true result does not fit them -/
 theorem broadcast_bound_from_one_operand_counterexample :
     broadcastShape [2, 1, 4] [3, 1] = some [2, 3, 4] ∧ clipList [2, 2, 6] [2, 3, 4] ≠ [2, 3, 4] := by decide
@@ -178,5 +180,265 @@ theorem reshape_minus_one_bound_counterexample :
     `(3,2)` of the clipped repeats `(2,1)` -/
 theorem repeat_bounds_counterexample :
     repeatList [2, 2] [2, 1] (some 0) = some [3, 2] ∧ repeatList [2, 2] [3, 2] (some 0) ≠ some [3, 2] := by decide
+
+/-- known finding C09.reshape-clipped-bounds, second face: a clipped target extent whose RANGE reaches below 0
+    (`clipped_integer_t<int,-1,12>{12}`) is read as the `-1` placeholder by the result-type resolver; the result slot
+    gets the bound 1 (the element count of the remaining slots) and the extent 12 is clamped to it -/
+theorem reshape_negative_min_bound_counterexample :
+    reshape [2, 3, 2] [12] = some [12] ∧ clipList [1] [12] ≠ [12] := by decide
+
+/-- known finding C09.take-clipped-indices: `take` types its result shape by the index ENTRIES; with the clipped
+    entries `(2 ≤ 3, 0 ≤ 1)` every extent of the true result `(2,2)` is clamped to the bound `1` of the last entry -/
+theorem take_index_bound_counterexample :
+    vTake [2, 3] [2, 0] 1 = some ([2, 2], [2, 0, 5, 3]) ∧ clipList [1, 1] [2, 2] ≠ [2, 2] := by decide
+
+/-- known finding C09.repeat-constant-axis-unchecked: with the axis `2_ct` the code returns the source shape `(2,3)`
+    unchanged (and `(2,3)` again for two counts on the extent 3); the reference, and the code with a run-time axis, refuse -/
+theorem repeat_constant_axis_counterexample :
+    some [2, 3] ≠ repeatScalar [2, 3] 2 (some 2) ∧ some [2, 3] ≠ repeatList [2, 3] [1, 2] (some 1) := by decide
+
+/-- known finding C09.concatenate-clipped-operand: `tuple_at` reads the extent 3 of the joining axis of a clipped shape
+    `(3,2)` through the type of the LAST entry (bound 2): the first operand is taken to have 2 rows, and row 2 of the
+    result `(5,2)` comes from the wrong operand -/
+theorem concatenate_clipped_extent_counterexample :
+    vConcatenate [3, 2] [2, 2] (some 0) = some ([5, 2], [0, 1, 2, 3, 4, 5, 1000, 1001, 1002, 1003]) ∧
+    (Clipped.mk' 0 2 3).val ≠ 3 := by decide
+
+/-! ### the reference refuses every member of the refusal classes of the kind matrix -/
+
+/-- all-positive target: accepted exactly when the element counts agree, and then the answer is the target itself.
+    In particular a target whose count is a proper divisor / a multiple of / coprime to the source count is
+    refused, whatever the kinds of the two arguments. -/
+theorem reshape_allpos_iff (src : List Nat) (dst : List Int) (r : List Nat) (h : ∀ d ∈ dst, 0 < d) :
+    reshape src dst = some r ↔ (prod (dst.map Int.toNat) = prod src ∧ r = dst.map Int.toNat) := by
+  unfold reshape
+  simp only [filter_neg_of_pos dst h, filter_nonneg_of_pos dst h, List.any_nil, List.length_nil]
+  by_cases hc : prod (dst.map Int.toNat) = prod src
+  · simp [hc, eq_comm]
+  · simp [hc]
+
+theorem reshape_refuses_count_mismatch (src : List Nat) (dst : List Int) (h : ∀ d ∈ dst, 0 < d)
+    (hc : prod (dst.map Int.toNat) ≠ prod src) : reshape src dst = none := by
+  cases hr : reshape src dst with
+  | none => rfl
+  | some r => exact absurd ((reshape_allpos_iff src dst r h).mp hr).1 hc
+
+example : reshape [12] [2, 3] = none := by decide
+example : reshape [6] [3, 4] = none := by decide
+example : reshape [6] [5] = none := by decide
+example : reshape [2, 3, 2] [12] = some [12] := by decide
+
+theorem reshape_refuses_two_unknown (src : List Nat) (dst : List Int)
+    (h : 2 ≤ (dst.filter (· < 0)).length) : reshape src dst = none := by
+  unfold reshape
+  simp only
+  split
+  · rfl
+  · split
+    · rename_i h0; omega
+    · rename_i h1; omega
+    · rfl
+
+theorem reshape_refuses_bad_extent (src : List Nat) (dst : List Int) (hs : Pos src) (d : Int) (hd : d ∈ dst)
+    (hbad : d = 0 ∨ d < -1) : reshape src dst = none := by
+  have hn := prod_pos hs
+  unfold reshape
+  simp only
+  split
+  · rfl
+  · rename_i hany
+    rcases hbad with h0 | hneg
+    · have hk : prod ((dst.filter (· ≥ 0)).map Int.toNat) = 0 := by
+        apply prod_eq_zero_of_mem
+        apply List.mem_map.mpr
+        exact ⟨d, List.mem_filter.mpr ⟨hd, by simp [h0]⟩, by simp [h0]⟩
+      split
+      · rw [hk]; simp; omega
+      · simp [hk]
+      · rfl
+    · exfalso
+      apply hany
+      apply List.any_eq_true.mpr
+      exact ⟨d, List.mem_filter.mpr ⟨hd, by simp; omega⟩, by simp; omega⟩
+
+example : reshape [6] [-1, -1] = none := by decide
+example : reshape [6] [0, -1] = none := by decide
+example : reshape [6] [-2, 3] = none := by decide
+
+/-- operand order does not matter (the kind matrix runs every request of a binary operation in both orders) -/
+theorem broadcastShape_comm (a b : List Nat) : broadcastShape a b = broadcastShape b a :=
+  broadcastShape_comm' a b
+
+example : broadcastShape [2, 1, 4] [3, 1] = some [2, 3, 4] ∧ broadcastShape [3, 1] [2, 1, 4] = some [2, 3, 4] := by decide
+
+/-- two extents that meet on the `k`-th axis counted from the last, differ and are both not 1: refused -/
+theorem broadcastShape_refuses_mismatch (a b : List Nat) (k x y : Nat)
+    (ha : a.reverse[k]? = some x) (hb : b.reverse[k]? = some y) (hxy : x ≠ y) (hx : x ≠ 1) (hy : y ≠ 1) :
+    broadcastShape a b = none := by
+  unfold broadcastShape
+  rw [bshapeRev_none_of_mismatch _ _ k x y ha hb (bdim_none hxy hx hy)]
+  rfl
+
+example : broadcastShape [2, 3, 4] [2, 1] = none := by decide
+example : [2, 3, 4].reverse[1]? = some 3 ∧ [2, 1].reverse[1]? = some 2 := by decide
+
+/-- `broadcast_to`: a source of higher rank than the target is refused -/
+theorem broadcastTo_refuses_longer (a b : List Nat) (h : b.length < a.length) : broadcastTo a b = none := by
+  unfold broadcastTo
+  have : ¬ a.length ≤ b.length := by omega
+  simp [this]
+
+/-- `broadcast_to`: an extent mismatch is refused -/
+theorem broadcastTo_refuses_mismatch (a b : List Nat) (k x y : Nat)
+    (ha : a.reverse[k]? = some x) (hb : b.reverse[k]? = some y) (hxy : x ≠ y) (hx : x ≠ 1) (hy : y ≠ 1) :
+    broadcastTo a b = none := by
+  unfold broadcastTo
+  rw [broadcastShape_refuses_mismatch a b k x y ha hb hxy hx hy]
+  simp
+
+example : broadcastTo [2, 3] [3] = none := by decide
+example : broadcastTo [3, 2] [2, 3, 4] = none := by decide
+example : broadcastTo [3, 1] [2, 3, 4] = some [2, 3, 4] := by decide
+
+theorem matmulShape_refuses_contraction (a b : List Nat) (x y : Nat)
+    (ha : a.reverse[0]? = some x) (hb : b.reverse[1]? = some y) (hxy : x ≠ y) : matmulShape a b = none := by
+  unfold matmulShape
+  by_cases hl : a.length < 2 ∨ b.length < 2
+  · simp [hl]
+  · have h1 : 2 ≤ a.length := by omega
+    have h2 : 2 ≤ b.length := by omega
+    rw [List.getElem?_reverse (by omega)] at ha hb
+    have e1 : (a.drop (a.length - 2)).getD 1 0 = x := by
+      rw [List.getD_eq_getElem?_getD, List.getElem?_drop]
+      have : a.length - 2 + 1 = a.length - 1 - 0 := by omega
+      rw [this, ha]; rfl
+    have e2 : (b.drop (b.length - 2)).getD 0 0 = y := by
+      rw [List.getD_eq_getElem?_getD, List.getElem?_drop]
+      have : b.length - 2 + 0 = b.length - 1 - 1 := by omega
+      rw [this, hb]; rfl
+    simp only [hl, if_false, e1, e2]
+    simp [hxy]
+example : matmulShape [2, 3] [2, 2] = none := by decide
+example : matmulShape [2, 1, 3, 4] [5, 4, 2] = some [2, 5, 3, 2] := by decide
+
+/-! ### views: refused exactly when the shape function refuses; accepted answers are well-formed arrays -/
+
+theorem vReshape_none_iff (s : List Nat) (d : List Int) : vReshape s d = none ↔ reshape s d = none := by
+  simp [vReshape]
+
+theorem vBroadcastTo_none_iff (s t : List Nat) : vBroadcastTo s t = none ↔ broadcastTo s t = none := by
+  simp [vBroadcastTo]
+
+theorem vAdd_none_iff (a b : List Nat) : vAdd a b = none ↔ broadcastShape a b = none := by
+  simp [vAdd]
+
+theorem vBroadcastArrays_none_iff (a b : List Nat) : vBroadcastArrays a b = none ↔ broadcastShape a b = none := by
+  simp [vBroadcastArrays]
+
+theorem vWhere_none_iff (c x y : List Nat) : vWhere c x y = none ↔ broadcastShapes [c, x, y] = none := by
+  simp [vWhere]
+
+theorem vPad_none_iff (s pw : List Nat) : vPad s pw = none ↔ pw.length ≠ 2 * s.length := by
+  simp [vPad, pad]
+
+theorem vMatmul_none_iff (a b : List Nat) : vMatmul a b = none ↔ matmulShape a b = none := by
+  simp [vMatmul]
+
+/-- operand order: `x + y` and `y + x` are refused together and have the same shape -/
+theorem vAdd_shape_comm (a b : List Nat) : (vAdd a b).map (·.1) = (vAdd b a).map (·.1) := by
+  simp only [vAdd, Option.map_map]
+  rw [broadcastShape_comm' a b]
+  rfl
+
+example : (vAdd [2, 1] [1, 3]).map (·.1) = some [2, 3] ∧ (vAdd [1, 3] [2, 1]).map (·.1) = some [2, 3] := by decide
+example : vAdd [2, 3] [2] = none ∧ vAdd [2] [2, 3] = none := by decide
+
+/-- every accepted reference answer of the tabulated views is a well-formed array -/
+theorem vrefs_wf (v : ArrV) :
+    (∀ s t, vBroadcastTo s t = some v → WF v) ∧ (∀ a b, vAdd a b = some v → WF v) ∧
+    (∀ s pw, vPad s pw = some v → WF v) ∧ (∀ s ax, vFlip s ax = some v → WF v) ∧
+    (∀ c x y, vWhere c x y = some v → WF v) ∧ (∀ a b, vMatmul a b = some v → WF v) ∧
+    (∀ s ind ax, vTake s ind ax = some v → WF v) ∧ (∀ s r, vTile s r = v → WF v) := by
+  refine ⟨?_, ?_, ?_, ?_, ?_, ?_, ?_, ?_⟩
+  · intro s t h; simp only [vBroadcastTo, Option.map_eq_some_iff] at h
+    obtain ⟨r, _, rfl⟩ := h; exact tabulate_wf _ _
+  · intro a b h; simp only [vAdd, Option.map_eq_some_iff] at h
+    obtain ⟨r, _, rfl⟩ := h; exact tabulate_wf _ _
+  · intro s pw h; simp only [vPad, Option.map_eq_some_iff] at h
+    obtain ⟨r, _, rfl⟩ := h; exact tabulate_wf _ _
+  · intro s ax h; simp only [vFlip, Option.map_eq_some_iff] at h
+    obtain ⟨r, _, rfl⟩ := h; exact tabulate_wf _ _
+  · intro c x y h; simp only [vWhere, Option.map_eq_some_iff] at h
+    obtain ⟨r, _, rfl⟩ := h; exact tabulate_wf _ _
+  · intro a b h; simp only [vMatmul, Option.map_eq_some_iff] at h
+    obtain ⟨r, _, rfl⟩ := h; exact tabulate_wf _ _
+  · intro s ind ax h; simp only [vTake, Option.bind_eq_some_iff] at h
+    obtain ⟨k, _, h⟩ := h
+    split at h
+    · cases h
+    · cases h; exact tabulate_wf _ _
+  · intro s r h; subst h; exact tabulate_wf _ _
+
+example : vPad [2, 3] [0, 2, 1, 0] = some ([3, 5], [9999, 9999, 0, 1, 2, 9999, 9999, 3, 4, 5, 9999, 9999, 9999, 9999, 9999]) := by decide
+
+/-- all-positive target: the reshaped reference array is well formed (the element counts agree) -/
+theorem vReshape_wf_allpos (s : List Nat) (d : List Int) (v : ArrV) (h : ∀ x ∈ d, 0 < x) (hv : vReshape s d = some v) :
+    WF v := by
+  simp only [vReshape, Option.map_eq_some_iff] at hv
+  obtain ⟨r, hr, rfl⟩ := hv
+  have := (reshape_allpos_iff s d r h).mp hr
+  simp [WF, this.2, this.1]
+
+example : vReshape [2, 3] [3, 2] = some ([3, 2], [0, 1, 2, 3, 4, 5]) := by decide
+
+/-- every accepted reshape (with or without an inferred `-1` extent) keeps the element count … -/
+theorem reshape_keeps_count (src : List Nat) (dst : List Int) (r : List Nat) (h : reshape src dst = some r) :
+    prod r = prod src := reshape_prod src dst r h
+
+/-- … so the reshaped reference array is well formed for EVERY accepted target (full version of `vReshape_wf_allpos`) -/
+theorem vReshape_wf (s : List Nat) (d : List Int) (v : ArrV) (hv : vReshape s d = some v) : WF v := by
+  simp only [vReshape, Option.map_eq_some_iff] at hv
+  obtain ⟨r, hr, rfl⟩ := hv
+  simp [WF, reshape_prod s d r hr]
+
+example : vReshape [2, 3, 2] [4, -1] = some ([4, 3], [0, 1, 2, 3, 4, 5, 6, 7, 8, 9, 10, 11]) := by decide
+
+/-- an axis outside `[-ndim, ndim)` is refused -/
+theorem normAxis_refuses (ndim : Nat) (a : Int) (h : a < -(ndim : Int) ∨ (ndim : Int) ≤ a) : normAxis ndim a = none := by
+  unfold normAxis
+  have h1 : ¬ (0 ≤ a ∧ a < ndim) := by omega
+  have h2 : ¬ (a < 0 ∧ -(ndim : Int) ≤ a) := by omega
+  simp [h1, h2]
+
+example : normAxis 3 3 = none ∧ normAxis 3 (-4) = none ∧ normAxis 3 (-1) = some 2 := by decide
+
+/-- `repeat` (scalar count) along an axis out of range is refused, at shape level and as a view -/
+theorem repeat_refuses_axis (s : List Nat) (r : Nat) (a : Int) (h : a < -(s.length : Int) ∨ (s.length : Int) ≤ a) :
+    repeatScalar s r (some a) = none ∧ vRepeat s r (some a) = none := by
+  simp [repeatScalar, vRepeat, normAxis_refuses s.length a h]
+
+/-- `repeat` with one count per element: an axis out of range, or a number of counts different from the extent of the
+    axis, is refused -/
+theorem repeatList_refuses (s r : List Nat) (a : Int) :
+    ((a < -(s.length : Int) ∨ (s.length : Int) ≤ a) → repeatList s r (some a) = none) ∧
+    (∀ k e, normAxis s.length a = some k → s[k]? = some e → r.length ≠ e → repeatList s r (some a) = none) := by
+  constructor
+  · intro h; simp [repeatList, normAxis_refuses s.length a h]
+  · intro k e hk he hne
+    simp [repeatList, hk, he, hne]
+
+example : repeatList [2, 3] [1, 2] (some 1) = none ∧ repeatList [2, 3] [1, 2, 3] (some 2) = none ∧
+    repeatList [2, 3] [1, 2, 3] (some 1) = some [2, 6] := by decide
+
+/-- `expand_dims` with an axis outside the result rank is refused -/
+theorem expandDims_refuses_axis (s : List Nat) (axes : List Int) (a : Int) (ha : a ∈ axes)
+    (h : a < -((s.length + axes.length : Nat) : Int) ∨ ((s.length + axes.length : Nat) : Int) ≤ a) :
+    vExpandDims s axes = none := by
+  unfold vExpandDims
+  have : normAxes (s.length + axes.length) axes = none :=
+    mapM_none_of_mem _ _ a ha (normAxis_refuses _ a h)
+  simp [this]
+
+example : vExpandDims [2, 3] [3] = none ∧ vExpandDims [2, 3] [0, 0] = none := by decide
 
 end NmVerif.Props.C09
